@@ -47,10 +47,16 @@ def hostile_input(r):
             return bytes([0x0D, 0, 1, (len(body) + 4) & 0xFF]) + body + b'\x0d\xff'
         return bytes([(len(body) + 4) & 0xFF, 1, 0]) + body + b'\x0d\x00\xff\xff'
     if k < 0.9:
-        # many nested closers: indentation underflow
-        t = r.choice([0xED, 0xFD])
+        # many nested closers (indentation underflow) or many unclosed openers over several lines (indentation
+        # grows without bound: hundreds of levels are carried into the following lines), in both framings
+        t = r.choice([0xED, 0xFD, 0xE3, 0xF5, 0xE3, 0xF5])
         body = bytes([t]) * r.choice([5, 100, 250])
-        return (bytes([0x0D, 0, 1, len(body) + 4]) + body) * r.choice([1, 3, 30]) + b'\x0d\xff'
+        if r.random() < 0.3:
+            body = bytes(r.choice([0xE3, 0xF5, t]) for _ in range(len(body)))
+        n = r.choice([1, 3, 30])
+        if r.random() < 0.7:
+            return (bytes([0x0D, 0, 1, len(body) + 4]) + body) * n + b'\x0d\xff'
+        return (bytes([len(body) + 4, 1, 0]) + body + b'\x0d') * n + b'\x00\xff\xff'
     return bytes(b) + bytes(r.getrandbits(8) for _ in range(r.randrange(0, 40)))
 
 
